@@ -5,7 +5,8 @@ cd "$HERE"
 ./ensure_env.sh || { echo "HARNESS-ERROR: environment setup failed"; exit 3; }
 export PYTHONHASHSEED=0
 export PYTHONDONTWRITEBYTECODE=1
-export PYTHONPATH="$HERE:/repo"
+REPO="${VK_REPO:-/repo}"
+export PYTHONPATH="$HERE:$REPO"
 export MOSAIK_VERIF=1
 ID="$1"; TIER="${VERIF_TIER:-$2}"; shift; shift
 exec "$HERE/.venv/bin/python" -m vk.check "$ID" "$TIER" "$@"
